@@ -255,9 +255,9 @@ theorem callFree_preserves (cfg : RunCfg) : ∀ f : Nat,
         obtain ⟨lv, st1, h1, h2⟩ := Res.bind_eq_ok h
         have e1 := ihE l st st1 lv hcf.1 h1
         subst e1
-        have key : ∀ (x : Value N → Except Fault (Value N)),
-            ((evalExpr cfg f r st1).bind fun rv st2 => Res.ofExcept cfg (x rv) sp st2) = .ok v st' → st' = st1 := by
-          intro x hx
+        have key : ∀ (x : Value N → Except Fault (Value N)) (sp' : Span),
+            ((evalExpr cfg f r st1).bind fun rv st2 => Res.ofExcept cfg (x rv) sp' st2) = .ok v st' → st' = st1 := by
+          intro x sp' hx
           obtain ⟨rv, st2, h3, h4⟩ := Res.bind_eq_ok hx
           have e2 := ihE r st1 st2 rv hcf.2 h3
           subst e2
@@ -267,20 +267,20 @@ theorem callFree_preserves (cfg : RunCfg) : ∀ f : Nat,
           simp only at h2
           split at h2
           · injection h2 with _ h3; exact h3.symm
-          · exact key _ h2
+          · exact key _ _ h2
         | or =>
           simp only at h2
           split at h2
           · injection h2 with _ h3; exact h3.symm
-          · exact key _ h2
-        | add => exact key _ h2
-        | minus => exact key _ h2
-        | times => exact key _ h2
-        | divide => exact key _ h2
-        | mod => exact key _ h2
-        | eq => exact key _ h2
-        | gt => exact key _ h2
-        | lt => exact key _ h2
+          · exact key _ _ h2
+        | add => exact key _ _ h2
+        | minus => exact key _ _ h2
+        | times => exact key _ _ h2
+        | divide => exact key _ _ h2
+        | mod => exact key _ _ h2
+        | eq => exact key _ _ h2
+        | gt => exact key _ _ h2
+        | lt => exact key _ _ h2
     · intro es st st' vs hcf h
       cases es with
       | nil => simp only [List.map_nil, evalSel] at h; injection h with _ h2; exact h2.symm
